@@ -548,6 +548,7 @@ func c07StreamBody(ch *engine.Chooser) engine.Result {
 		stream = append(stream, p[:]...)
 	}
 	hasPAT := ch.Choose("pat-packet-absent", 2) == 0
+	secondPAT := false
 	if hasPAT {
 		carriers := 1
 		if len(payload) < 184 {
@@ -578,6 +579,7 @@ func c07StreamBody(ch *engine.Chooser) engine.Result {
 			second := ref.CarryPayload(0, true, 5, ref.PadPayload(append(ref.Pointer(0), c07Decoy.Bytes()...), 184))
 			stream = append(stream, second[:]...)
 			res.Event("second-different-PAT-follows")
+			secondPAT = true
 		case 2:
 			f := c07Foreign(1, 0)
 			stream = append(stream, f[:]...)
@@ -624,6 +626,22 @@ func c07StreamBody(ch *engine.Chooser) engine.Result {
 	})
 	if !bytes.Equal(stream, keep) {
 		res.Failf("ReadPAT|"+cls+"|input-modified", "stream bytes modified")
+	}
+	// the stream can be read on: a second ReadPAT on the same reader finds the PAT packet that follows
+	if secondPAT {
+		var pat2 psi.PAT
+		var err2 error
+		if !engine.Guard(&res, "ReadPAT|second-call-on-the-same-reader", func() { pat2, err2 = psi.ReadPAT(rd) }) {
+			res.Evals++
+			if err2 != nil || pat2 == nil {
+				res.Failf("ReadPAT|second-call-on-the-same-reader|error", "the PAT packet that follows the first one is not found by a second call on the same reader (%s): %v", c07Readers[rk], err2)
+			} else {
+				dm := c07Decoy.Model()
+				engine.Guard(&res, "PAT-accessors", func() {
+					c07Verify(&res, "ReadPAT,second-call-on-the-same-reader", c07Class(c07Decoy.Entries), pat2, &dm, c07Probes(c07Decoy.Entries, pb[:0]), false)
+				})
+			}
+		}
 	}
 	res.Outcome(si, len(m.Map), m.SPTSOK)
 	return res
@@ -880,7 +898,7 @@ func init() {
 			},
 			&engine.Tree{
 				Name: "streams",
-				Rule: "choice tree: PAT section (7 shapes incl. empty, network only, 42 entries) x 0..3 preceding packets of other PIDs, each one of 8 kinds (packets on the reserved PIDs 0x0005 / 0x000F whose payload is full of header-like byte sequences; null; PUSI packets carrying a complete decoy PAT on PIDs 0x100, 0x1000, 0x001, 0x1F00; adaptation-field-only) x PAT packet present/absent x header bits x PAT carrier (padded payload / adaptation-field stuffing / adaptation field with PCR) x what follows (nothing / a different PAT / foreign packet) x partial packet of {0,1,4,187} bytes at the end x reader (all at once, one byte, half, data+EOF, chunks of 100, chunks of 3, bufio default size, bufio size 16 over chunks of 3); oracle: decoded table of the first PID-0 packet, or ErrPATNotFound when there is none; non-trivial = executions with at least one non-default choice",
+				Rule: "choice tree: PAT section (7 shapes incl. empty, network only, 42 entries) x 0..3 preceding packets of other PIDs, each one of 8 kinds (packets on the reserved PIDs 0x0005 / 0x000F whose payload is full of header-like byte sequences; null; PUSI packets carrying a complete decoy PAT on PIDs 0x100, 0x1000, 0x001, 0x1F00; adaptation-field-only) x PAT packet present/absent x header bits x PAT carrier (padded payload / adaptation-field stuffing / adaptation field with PCR) x what follows (nothing / a different PAT / foreign packet) x partial packet of {0,1,4,187} bytes at the end x reader (all at once, one byte, half, data+EOF, chunks of 100, chunks of 3, bufio default size, bufio size 16 over chunks of 3); oracle: decoded table of the first PID-0 packet, or ErrPATNotFound when there is none; when a second PAT packet follows, a second ReadPAT on the same reader must return that one; non-trivial = executions with at least one non-default choice",
 				Bound: func(r *engine.Run) int {
 					if r.Thorough() {
 						return -1
